@@ -8,8 +8,9 @@ CONSTANTS
   MaxVer = 2
   CopyUnderLock = TRUE
   KeyRecheck = TRUE
-  ReleaseLocks = FALSE
-  NxAtomic = TRUE
+  ReleaseLocks = TRUE
+  NxAtomic = FALSE
 INVARIANTS TypeOK Inv_C07_HitOwnValue Inv_TableKey Inv_PoolBlank Inv_BufOnce 
 
+PROPERTIES NxNeverDisplaces
 CHECK_DEADLOCK FALSE
